@@ -153,7 +153,11 @@ func (pr *Prover) discharge(vc *VC, o *Oblig, prelude string, axioms []string) *
 		cfgs = cfgs[:1]
 	}
 	for _, cfg := range cfgs {
-		st, out, ms := runSolver(cfg, file, pr.timeout)
+		to := pr.timeout
+		if o.Kind == "canary" && to > 2*time.Second {
+			to = 2 * time.Second // a vacuous context is refuted at once; anything slower is "not refuted"
+		}
+		st, out, ms := runSolver(cfg, file, to)
 		v.Ms += ms
 		v.Tried = append(v.Tried, cfg.name+":"+st)
 		switch st {
